@@ -36,7 +36,9 @@ LEX = ["@charset ", "@charset", "@import", "@media", "@page", "@namespace", "@fo
        "1", "50%", "1px", "#fff", "!", "important", ",", " ", "/*c*/", "/*", "\\", '"', "+", ">", "*", "|", ".", "=",
        "and", "screen", "<!--", "-->", "not", "only", ":not(", "::", "~=", "U+2??", "var(", "\n", "-", "e",
        "expression(", "progid:DXImageTransform.Microsoft.x(", "@top-left", "~", "\\26 ", "\\\n", "color", "red",
-       "attr(", "/", "$=", "\xe9", "\x00", "\ufeff", "\U0001F600", "\ud800", "0", ".5", "1e3", "#", "@", "@-x-y"]
+       "attr(", "/", "$=", "\xe9", "\x00", "\ufeff", "\U0001F600", "\ud800", "0", ".5", "1e3", "#", "@", "@-x-y",
+       "\\7d ", "\\7b ", "\\28 ", "\\29 ", "\\3b ", "\\22 ", "\\5c ", "/**/", " /*c*/ ", '"hex"', '"css"', '"utf-8"',
+       "9" * 400, "9" * 400 + ".5", "9" * 4400]
 CORE = ["@charset ", "@import", "@media", "@page", "@namespace", "@x", "a", "{", "}", ":", ";", "(", ")", "[", "]", '"s"',
         "url(x)", "hsl(", "rgb(", "f(", "1", "50%", "1px", "#fff", "!", "important", ",", " ", "/*c*/", "\\", '"',
         "+", "*", "|", ".", "=", "and", "screen", ":not(", "calc(", "var(", "/", "-", "@font-face"]
@@ -50,7 +52,14 @@ CONTEXTS = ["%s", "a{%s}", "a{color:%s}", "a{%s:red}", "@media %s{a{x:1}}", "@me
 SETTINGS = [(v, c) for v in (1, 0) for c in (1, 0)]   # validate x parseComments
 APIS = ["S", "Y"]                                      # parseString / parseStyle
 
-FETCH_KINDS = ["none", "text", "bytes", "raise", "oserror", "nested", "badtuple", "strenc", "empty", "latin"]
+FETCH_KINDS = ["none", "text", "bytes", "raise", "oserror", "nested", "badtuple", "strenc", "empty", "latin",
+               # results that break the documented (encoding, content) shape -- "whatever a fetcher returns"
+               "int-content", "int-result", "bytes-enc", "int-enc-bytes", "int-enc-str", "list-content", "str-result",
+               "bytes-result", "triple", "list-result", "empty-tuple", "none-none", "bogus-enc", "bogus-enc-str"]
+MISTYPED = {"int-content": (None, 123), "int-result": 5, "bytes-enc": (b"utf-8", b"a{}"), "int-enc-bytes": (123, b"a{}"),
+            "int-enc-str": (123, "a{}"), "list-content": (None, ["a"]), "str-result": "a{}", "bytes-result": b"a{}",
+            "triple": (1, 2, 3), "list-result": [None, "a{}"], "empty-tuple": (), "none-none": (None, None),
+            "bogus-enc": ("bogus", b"a{}"), "bogus-enc-str": ("bogus", "a{}")}
 
 # ------------------------------------------------------------------------------------------------ the oracle (worker side)
 _STATE = {}
@@ -91,6 +100,8 @@ def make_fetcher(kind, log):
             return "utf-8", "e{w:4}"
         if kind == "empty":
             return None, ""
+        if kind in MISTYPED:
+            return MISTYPED[kind]
         return None
     return fetch
 
@@ -386,6 +397,27 @@ def mutate(rng, toks):
     return "".join(toks)
 
 
+WEAVE_BASES = ["a{color:red}", "a{x:1;y:2}", "a{margin:0 !important}", "@media print{a{width:10px}}",
+               "@import url(x) screen;", '@import "x" print, tv;', '@namespace p "u";', "@page :first{margin:0}",
+               "@font-face{src:url(x)}", "a>b,c[d=e]:hover{x:f(1,2) g}", '@charset "utf-8";', "@x y{z}", "@x y;",
+               'a{x:rgb(1,2,3) calc(1px + 2px) url(x) "s"}', "@page{@top-left{x:1}}", "@variables{a:1}", "a{x:var(a)}",
+               "@media screen and (min-width:1px){a{}}", "a:not(.b)::after{content:attr(x)}", "p|a,*|b{x:-1.5em/2}",
+               "color:red;x:1 !important", "margin:0 auto", "x:f(1,2)", "a{x:1/2}", "a{font:12px/1.5 a,b}",
+               "a{x:U+20-7f}", "a{x:#fff}", "a{x:hsla(1,2%,3%,.5)}", "@media print{@page{margin:0}}", "<!--a{}-->"]
+WEAVE_FILLERS = [" /*c*/ ", "/*c*/", " /**/ /**/ ", "/*c*/ ", " /*c*/", "\n/*c*/\n", " /*a*//*b*/ "]
+
+
+def codec_names():
+    import encodings.aliases
+    import pkgutil
+    import encodings
+    names = set(encodings.aliases.aliases.values()) | {m.name for m in pkgutil.iter_modules(encodings.__path__)}
+    names -= {"aliases", "mbcs", "oem"}
+    names |= {"css", "undefined", "idna", "punycode", "hex", "rot13", "base64", "zlib", "bz2", "quopri", "uu", "utf-8-sig",
+              "unicode_escape", "raw_unicode_escape", "charmap", "bogus", "UTF-8", "Latin-1", "utf_16_le"}
+    return sorted(names)
+
+
 PUMPS = [
     ("comment-stars", lambda n: "/*" + "*" * n + " x"),
     ("comment-stars-closed", lambda n: "/*" + "*" * n + " x*/"),
@@ -411,6 +443,9 @@ PUMPS = [
     ("digits-hsl", lambda n: "a{color:hsl(0," + "9" * (n * 6) + "%,50%)}"),
     ("digits-rgb", lambda n: "a{color:rgb(" + "9" * (n * 6) + "%,0%,0%)}"),
     ("dots", lambda n: "a{width:" + "1." * n + "}"),
+    ("digits-frac", lambda n: "a{width:" + "9" * (n * 8) + ".5px}"),
+    ("digits-huge", lambda n: "a{width:" + "9" * (n * 80) + "}"),
+    ("digits-hsl-all", lambda n: "a{color:hsl(" + "9" * (n * 5) + "," + "9" * (n * 5) + "%," + "9" * (n * 5) + "%)}"),
     ("url-spaces", lambda n: "a{x:url(" + " " * n + "x" + " " * n + "y)}"),
     ("url-escapes", lambda n: "a{x:url(" + "\\" * n),
     ("selector-combinators", lambda n: "a" + " > a" * n + "{}"),
@@ -517,6 +552,28 @@ def build_cases(ctx, thorough):
         if rng.random() < 0.5:
             t = rng.choice(CONTEXTS) % t
         add("soup", t, apis=[APIS[i % 2]] if i % 3 else APIS)
+    # 4b. comments and whitespace at EVERY token boundary (the last one before each terminator included):
+    #     with parseComments=False the tokenizer drops the comment, so "S COMMENT S" reaches the parsers as
+    #     adjacent S tokens -- in all four validate x parseComments settings
+    bases = WEAVE_BASES + [sh[:160] for sh in sheets[: (40 if thorough else 6)]]
+    for bi, base in enumerate(bases):
+        style = not any(c in base for c in "{}@")
+        apis = ["Y"] if style else ["S"]
+        lx = lexemes(base)
+        for filler in WEAVE_FILLERS:
+            # at all boundaries at once
+            add("weave-all", filler.join(lx) + filler, full=True, apis=apis)
+            if bi >= len(WEAVE_BASES) and filler not in WEAVE_FILLERS[:3]:
+                continue
+            for k in range(len(lx) + 1):
+                add("weave", "".join(lx[:k]) + filler + "".join(lx[k:]), full=True, apis=apis)
+        # every prefix cut right after a woven " /*c*/ " (end of text inside / after the filler)
+        for k in range(1, len(lx) + 1):
+            add("weave-cut", "".join(lx[:k]) + " /*c*/ ", full=True, apis=apis)
+            add("weave-cut", "".join(lx[:k]) + " /*c", full=True, apis=apis)
+    # 4c. every codec name the interpreter knows as a sheet encoding (parse, then cssText must encode)
+    for enc in codec_names():
+        add("charset", '@charset "%s";a{x:"\xe9..b\u20ac"}' % enc, apis=["S"])
     # 5. @import with every fetcher behaviour
     imports = ["@import 'x.css';", "@import url(y.css) screen;a{}", '@charset "utf-8";@import "z";@import "z";',
                "@import 'x' \"n\";@media print{@import 'q';}", "@import url();", "@import '';@import 'x", "@import x;",
@@ -1037,8 +1094,8 @@ TRUSTED = [
     "ProdParser value/media grammars, profiles validation, serializer) returns and leaves a suffix of the token "
     "generator -- validated only end to end by the oracle streams",
     "hypothesis of color_fn_total: the colour productions deliver at most four components (checked on every "
-    "correspondence case) and the float arithmetic (colorsys, round, int) is total -- false for non-finite "
-    "components, see the open finding",
+    "correspondence case) and the float arithmetic (colorsys, round, int) is total -- out-of-range components "
+    "are rejected by the repaired code (OverflowError/ValueError caught)",
     "CPython 3.12 re/str semantics as the thing being modelled",
 ]
 ASSUME = [
